@@ -141,6 +141,16 @@ func (w *World) probe(note string) {
 	e.Tracked = w.Srv.Mach.ActiveStates(nil)
 	if nm := w.Cli.NetMach; nm != nil {
 		e.MAct = nm.ActiveStates(nil)
+		// the per-state views: Tick() and the Clock() map (a state on which the two
+		// differ is logged with the Clock value)
+		clock := nm.Clock(nil)
+		for _, n := range names {
+			tk := nm.Tick(n)
+			if c, ok := clock[n]; ok && c != tk {
+				tk = c
+			}
+			e.MTk = append(e.MTk, tk)
+		}
 	}
 	e.SAct = w.Src.ActiveStates(nil)
 	w.log(e)
